@@ -58,6 +58,8 @@ def lean_ty(t):
             return "(" + " × ".join(lean_ty(x) for x in t[1]) + ")"
         if t[0] == "dict":
             return f"(List ({lean_ty(t[1])} × {lean_ty(t[2])}))"
+        if t[0] == "set":
+            return f"(List {lean_ty(t[1])})"
         if t[0] == "fun":
             res = lean_ty(t[2])
             if t[3]:
@@ -65,7 +67,7 @@ def lean_ty(t):
             return "(" + " → ".join([lean_ty(a) for a in t[1]] + [res]) + ")"
     return {"int": "Int", "bool": "Bool", "str": "Str", "bytes": "(List Nat)", "row": "Row", "frag": "Fragment", "gap": "Gap",
             "ovres": "OverlapResult", "scaffold": "Scaffold", "bytesio": "PyRt.BytesIO", "unit": "Unit", "sink_str": "Str",
-            "sink_bytes": "(List Nat)", "nat": "Nat", "trtable": "(Char → Char)"}[t]
+            "sink_bytes": "(List Nat)", "nat": "Nat", "trtable": "(Char → Char)", "fastainfo": "FastaInfo"}[t]
 
 
 # OBJECT TABLE: (type, python attribute) -> (result type, lean template, may raise)
@@ -89,6 +91,7 @@ ATTR = {
     ("ovres", "start_row_bait_overlap"): ("int", "{0}.startRowBaitOverlap", True),
     ("ovres", "end_row_bait_overlap"): ("int", "{0}.endRowBaitOverlap", True),
     ("scaffold", "rows"): (L("row"), "{0}.rows", False), ("scaffold", "name"): ("str", "{0}.name", False),
+    ("fastainfo", "length"): ("int", "{0}.length", False),
     ("ovres", "name"): ("str", "{0}.name", False), ("ovres", "original_name"): (O("str"), "{0}.originalName", False),
     ("ovres", "original_tags"): (O(L("str")), "{0}.originalTags", False),
 }
@@ -99,7 +102,10 @@ MUT_METHOD = {("ovres", "discard_start"): "OverlapResult.discardStart", ("ovres"
 # pure methods: (type, method, arg types) -> (result type, template)
 PURE_METHOD = {("frag", "abuts"): (["frag"], "bool", "(Fragment.abuts {0} {1})"), ("frag", "overlaps"): (["frag"], "bool", "(Fragment.overlaps {0} {1})"),
                ("frag", "gap_between"): (["frag"], O("int"), "(Fragment.gapBetween {0} {1})"),
-               ("scaffold", "reverse"): ([], "scaffold", "(Scaffold.reverse {0})")}
+               ("scaffold", "reverse"): ([], "scaffold", "(Scaffold.reverse {0})"),
+               # generator methods of Scaffold, as the lists they yield
+               ("scaffold", "fragments"): ([], L("frag"), "(Scaffold.fragments {0})"),
+               ("bytesio", "getvalue"): ([], "bytes", "({0}).data")}
 ERR = {"ValueError": "value", "IndexError": "index", "KeyError": "key", "TypeError": "type", "NotImplementedError": "notImpl"}
 RESERVED = {"end", "from", "at", "in", "do", "then", "else", "if", "let", "have", "show", "fun", "match", "with", "where", "by", "open",
             "section", "namespace", "def", "theorem", "instance", "structure", "class", "deriving", "import", "max", "min", "new", "this", "rows"}
@@ -159,12 +165,16 @@ def assigned(stmts):
                     add(r)
             elif isinstance(n, ast.NamedExpr):
                 add(n.target.id)
+            elif isinstance(n, ast.Yield):
+                add("yielded_")
+            elif isinstance(n, ast.Call) and isinstance(n.func, ast.Name) and n.func.id == "compare_func":
+                add("over_pairs")
             elif isinstance(n, ast.For):
                 for el in (n.target.elts if isinstance(n.target, ast.Tuple) else [n.target]):
                     if isinstance(el, ast.Name):
                         add(el.id)
             elif isinstance(n, ast.Call) and isinstance(n.func, ast.Attribute) and n.func.attr in (
-                    "pop", "append", "extend", "write", "seek", "read", "discard_start", "discard_end", "add_row"):
+                    "pop", "append", "extend", "write", "seek", "read", "discard_start", "discard_end", "add_row", "add"):
                 r = root_of(n.func.value)
                 if r:
                     add(r)
@@ -200,7 +210,7 @@ class Kernel:
             return "none"
         if isinstance(to, tuple) and to[0] == "opt" and to[1] == frm:
             return f"(some {term})"
-        if frm == "emptylist" and isinstance(to, tuple) and to[0] == "list":
+        if frm == "emptylist" and isinstance(to, tuple) and to[0] in ("list", "set"):
             return "[]"
         if frm == "nat" and to == "int":
             return f"(Int.ofNat {term})"
@@ -213,7 +223,7 @@ class Kernel:
             return f"(!({term}).isEmpty)"
         if ty == "int":
             return f"(decide ({term} ≠ 0))"
-        if isinstance(ty, tuple) and ty[0] == "opt" and ty[1] in ("frag", "gap", "row", "scaffold", "ovres"):
+        if isinstance(ty, tuple) and ty[0] == "opt" and ty[1] in ("frag", "gap", "row", "scaffold", "ovres", "fastainfo"):
             return f"({term}).isSome"
         if isinstance(ty, tuple) and ty[0] == "opt" and ty[1] == "int":
             # `if g := a.gap_between(b):` — None and 0 are both false
@@ -282,8 +292,13 @@ class Kernel:
             return term, ty
         if isinstance(e, ast.Subscript):
             b, tb = self.expr(e.value, env, binds)
+            if isinstance(tb, tuple) and tb[0] == "tuple" and isinstance(e.slice, ast.Constant) and isinstance(e.slice.value, int) \
+                    and 0 <= e.slice.value < len(tb[1]):
+                k, n = e.slice.value, len(tb[1])
+                proj = b + "".join(".2" for _ in range(k)) + (".1" if k < n - 1 else "")
+                return f"({proj})", tb[1][k]
             if isinstance(e.slice, ast.Slice):
-                if not (isinstance(tb, tuple) and tb[0] == "list"):
+                if not (isinstance(tb, tuple) and tb[0] == "list") and tb != "bytes":
                     raise Unsupported("slice of a non-list")
                 sl = e.slice
 
@@ -339,6 +354,8 @@ class Kernel:
                     ety = ty
             if ety is None:
                 return "[]", "emptylist"
+            if isinstance(e, ast.Tuple) and isinstance(ety, tuple) and ety[0] == "tuple" and all(k == "x" for k, _ in parts):
+                return "(" + ", ".join(t for _, t in parts) + ")", ("tuple", [ety] * len(parts))      # a pair of records
             segs, cur = [], []
             for k, t in parts:
                 if k == "x":
@@ -372,6 +389,8 @@ class Kernel:
                     return f"(pyMod {a} {b})", "int"
             if ta == tb and ta in ("str", "bytes") and isinstance(e.op, ast.Add):
                 return f"({a} ++ {b})", ta
+            if ta == "bytes" and tb == "int" and isinstance(e.op, ast.Mult):
+                return f"(PyRt.bytesRepeat {a} {b})", "bytes"
             raise Unsupported(f"operator {type(e.op).__name__} on {ta}, {tb}")
         if isinstance(e, ast.UnaryOp):
             a, ta = self.expr(e.operand, env, binds)
@@ -507,6 +526,8 @@ class Kernel:
                 binds.append((v, term, rty))
                 return v, rty
             return term, rty
+        if isinstance(f, ast.Attribute) and dotted(f) == "io.BytesIO":
+            f = ast.Name(id="BytesIO", ctx=ast.Load())
         if isinstance(f, ast.Name) and not e.keywords:
             n = f.id
             if n == "isinstance" and len(e.args) == 2 and isinstance(e.args[1], ast.Name):
@@ -538,8 +559,13 @@ class Kernel:
                 t, ty = self.expr(e.args[0], env, binds)
                 if ty == L("int"):
                     return f"(PyRt.sum {t})", "int"
-            if n == "Scaffold" :
-                pass
+            if n == "BytesIO" and len(e.args) == 1:
+                t, ty = self.expr(e.args[0], env, binds)
+                if ty != "bytes":
+                    raise Unsupported("BytesIO() of a non-bytes value")
+                return f"({{ data := {t}, pos := 0 }} : PyRt.BytesIO)", "bytesio"
+            if n == "set" and not e.args:
+                return "[]", "emptylist"
             if n in self.spec.get("ctors", {}):
                 pass
             if n == "OverlapResult":
@@ -636,6 +662,9 @@ class Kernel:
                 if td != tb[2]:
                     raise Unsupported("dict default type")
                 return f"((dGet? {b} {k}).getD {d})", tb[2]
+            if tb == "bytes" and m == "translate" and len(e.args) == 1 and isinstance(e.args[0], ast.Name) and e.args[0].id == "IUPAC_COMPLEMENT":
+                # the module-level complement table: the model's `comp` reads the table EXTRACTED from the source (Gen.complementTable, T1)
+                return f"(({b}).map comp)", "bytes"
             if tb == "str" and m == "translate" and len(e.args) == 1:
                 tbl, tt = self.expr(e.args[0], env, binds)
                 if tt != "trtable":
@@ -739,6 +768,22 @@ class Kernel:
             tgt_load = ast.parse(ast.unparse(s.target), mode="eval").body
             new = ast.Assign(targets=[s.target], value=ast.BinOp(left=tgt_load, op=op, right=s.value))
             return self.assign(new, rest, env, loop)
+        if isinstance(s, ast.Expr) and isinstance(s.value, ast.Yield) and s.value.value is not None and "yields" in self.spec:
+            # a generator is translated to the LIST of the values it yields (sound for a generator without side effects between yields that a
+            # consumer could observe; the kernels marked `yields` only read)
+            binds = []
+            t, ty = self.expr(s.value.value, env, binds)
+            t = self.coerce(t, ty, self.spec["yields"])
+            return self.with_binds(binds, [self.let("yielded_", L(self.spec["yields"]), f"yielded_ ++ [{t}]")] + self.block(rest, env, loop))
+        if isinstance(s, ast.Expr) and isinstance(s.value, ast.Call) and isinstance(s.value.func, ast.Name) \
+                and s.value.func.id in self.spec.get("inline_callbacks", {}):
+            # a callback whose definition is known: its body is inlined (parameters bound to the arguments)
+            qual = self.spec["inline_callbacks"][s.value.func.id]
+            fn = find_def(ast.parse((SRC / self.spec["file"]).read_text()), qual)
+            if fn is None or len(fn.args.args) != len(s.value.args) or exits(fn.body):
+                raise Unsupported("callback to inline")
+            pre = [ast.Assign(targets=[ast.Name(id=a.arg, ctx=ast.Store())], value=v) for a, v in zip(fn.args.args, s.value.args)]
+            return self.block(pre + list(fn.body) + rest, env, loop)
         if isinstance(s, ast.Expr) and isinstance(s.value, ast.Call):
             return self.call_stmt(s.value, rest, env, loop)
         if isinstance(s, ast.If):
@@ -920,6 +965,15 @@ class Kernel:
             m = f.attr
             if m == "pop":
                 return self.pop_stmt(None, c, rest, env, loop)
+            if m == "add" and len(c.args) == 1:
+                cont, tc = self.expr(f.value, env, binds)
+                if not (isinstance(tc, tuple) and tc[0] == "set"):
+                    raise Unsupported("add on a non-set")
+                v, tv = self.expr(c.args[0], env, binds)
+                if tv != tc[1]:
+                    raise Unsupported("set element type")
+                lines, env2 = self.store_back(f.value, f"(sAdd {cont} {v})", tc, env)
+                return self.with_binds(binds, lines + self.block(rest, env2, loop))
             if m in ("append", "extend") and len(c.args) == 1:
                 cont, tc = self.expr(f.value, env, binds)
                 if not (isinstance(tc, tuple) and tc[0] == "list"):
@@ -986,7 +1040,10 @@ class Kernel:
             b = self.block(list(some_body) + ([] if (some_body and always_exits(some_body)) else rest), env_some, loop)
             return [f"match {mg(x)} with", "| none =>"] + ind(a) + [f"| some {mg(x)} =>"] + ind(b)
         def opt_obj(n):
-            return isinstance(n, ast.Name) and isinstance(env.get(n.id), tuple) and env[n.id][0] == "opt" and env[n.id][1] in ("frag", "gap", "row", "scaffold", "ovres")
+            return isinstance(n, ast.Name) and isinstance(env.get(n.id), tuple) and env[n.id][0] == "opt" and env[n.id][1] in ("frag", "gap", "row", "scaffold", "ovres", "fastainfo")
+        if isinstance(test, ast.UnaryOp) and isinstance(test.op, ast.Not) and opt_obj(test.operand):
+            isnone = ast.Compare(left=ast.Name(id=test.operand.id, ctx=ast.Load()), ops=[ast.Is()], comparators=[ast.Constant(value=None)])
+            return self.if_stmt(ast.If(test=isnone, body=s.body, orelse=s.orelse), rest, env, loop)
         if opt_obj(test) or (isinstance(test, ast.BoolOp) and isinstance(test.op, ast.And) and opt_obj(test.values[0])):
             x = test if isinstance(test, ast.Name) else test.values[0]
             notnone = ast.Compare(left=ast.Name(id=x.id, ctx=ast.Load()), ops=[ast.IsNot()], comparators=[ast.Constant(value=None)])
@@ -1195,6 +1252,12 @@ def translate(spec):
         for p, ty in spec.get("sinks", {}).items():
             env[sink_name(p)] = ty
             k.roots.append((sink_name(p), ty))
+        if "yields" in spec:
+            env["yielded_"] = L(spec["yields"])
+            k.roots.append(("yielded_", L(spec["yields"])))
+        for p, ty in spec.get("extra_roots", {}).items():
+            env[p] = ty
+            k.roots.append((p, ty))
         for p, ty in spec.get("dict_roots", {}).items():
             nm = p.replace(".", "_")
             env[nm] = ty
@@ -1216,7 +1279,7 @@ def translate(spec):
     if k.ret_ty != "unit":
         parts.append(lean_ty(k.ret_ty))
     rty = "Unit" if not parts else " × ".join(parts)
-    sink_inits = [f"  let {mg(n)} : {lean_ty(t)} := []" for n, t in k.roots if t in ("sink_str", "sink_bytes")]
+    sink_inits = [f"  let {mg(n)} : {lean_ty(t)} := []" for n, t in k.roots if t in ("sink_str", "sink_bytes") or n == "yielded_" or n in spec.get("extra_roots", {})]
     # parameter order = the order of the kernel's declaration (params, attr_params, opaque, then newOid): independent of the order of use
     order = [p.replace(".", "_") for p in spec.get("dict_roots", {})] + [mg(n) for n in spec.get("params", {})] + [p.replace(".", "_") for p in spec.get("attr_params", {})] \
         + [p.replace(".", "_") for p in spec.get("opaque", {})] + ["newOid"]
@@ -1240,6 +1303,34 @@ IMP_KERNELS_2 = [
     dict(file="assembly/format.py", qual="format_tpf", lean="format_tpf_imp",
          params={"file": "sink_str"}, attr_params={"asm.header": L("str"), "asm.scaffolds": L("scaffold")},
          opaque={"uppercase_and_underscore_to_dash": ([], "trtable", False)}),
+]
+
+IMP_KERNELS_3 = [
+    dict(file="fasta/index.py", qual="FastaIndex.get_gap_iter", lean="FastaIndex_get_gap_iter_imp", yields="bytesio",
+         params={"gap": "gap", "gap_character": "bytes"}, attr_params={"self.buffer_size": "int"}),
+    dict(file="fasta/index.py", qual="FastaIndex.fwd_chunks", lean="FastaIndex_fwd_chunks_imp", yields="bytesio",
+         params={"info": "fastainfo", "start": "int", "end": "int"}, attr_params={"self.buffer_size": "int"},
+         opaque={"self.sequence_bytes": (["fastainfo", "int", "int"], "bytesio", True)}),
+    dict(file="fasta/index.py", qual="FastaIndex.rev_chunks", lean="FastaIndex_rev_chunks_imp", yields="bytesio",
+         params={"info": "fastainfo", "start": "int", "end": "int"}, attr_params={"self.buffer_size": "int"},
+         opaque={"self.sequence_bytes": (["fastainfo", "int", "int"], "bytesio", True), "revcomp_bytes_io": (["bytesio"], "bytesio", False)}),
+    dict(file="fasta/index.py", qual="FastaIndex.get_info", lean="FastaIndex_get_info", returns="fastainfo",
+         params={"name": "str"}, attr_params={"self.index": ("dict", "str", "fastainfo")}),
+    dict(file="fasta/index.py", qual="FastaIndex.get_sequence_iter", lean="FastaIndex_get_sequence_iter", returns=L("bytesio"),
+         params={"frag": "frag"},
+         opaque={"self.get_info": (["str"], "fastainfo", True), "self.rev_chunks": (["fastainfo", "int", "int"], L("bytesio"), True),
+                 "self.fwd_chunks": (["fastainfo", "int", "int"], L("bytesio"), True)}),
+    dict(file="fasta/simple.py", qual="reverse_complement", lean="reverse_complement_imp", returns="bytes", params={"seq": "bytes"}),
+    dict(file="fasta/simple.py", qual="revcomp_bytes_io", lean="revcomp_bytes_io_imp", returns="bytesio", params={"seq": "bytesio"},
+         opaque={"reverse_complement": (["bytes"], "bytes", False)}),
+    dict(file="assembly/scaffold.py", qual="Scaffold.fragment_tags", lean="Scaffold_fragment_tags", returns=("set", "str"),
+         params={"self": "scaffold"}, locals={"tag_set": ("set", "str")}),
+    dict(file="assembly/scaffold.py", qual="Scaffold.length", lean="Scaffold_length_imp", returns="int", params={"self": "scaffold"}),
+    dict(file="assembly/scaffold.py", qual="Scaffold.fragments_length", lean="Scaffold_fragments_length", returns="int", params={"self": "scaffold"}),
+    dict(file="assembly/assembly.py", qual="Assembly.all_vs_all_fragments", lean="Assembly_all_vs_all_fragments_detect",
+         attr_params={"self.scaffolds": L("scaffold")}, locals={"frags": L(("tuple", ["frag", "scaffold"]))},
+         inline_callbacks={"compare_func": "Assembly.find_overlapping_fragments.detect_overlap"},
+         extra_roots={"over_pairs": L(("tuple", [("tuple", ["frag", "scaffold"]), ("tuple", ["frag", "scaffold"])]))}),
 ]
 
 IMP_KERNELS = [
@@ -1273,7 +1364,7 @@ IMP_KERNELS = [
 def main():
     parts = ["/- GENERATED by harness/translate_imp.py from /repo/src — do not edit -/", "import AgpTpf.Model.PyRt", "import AgpTpf.Model.Lookup",
              "import AgpTpf.Model.Fasta", "set_option linter.unusedVariables false", "namespace AgpTpf.Gen.Imp", "open AgpTpf", ""]
-    for spec in IMP_KERNELS + IMP_KERNELS_2:
+    for spec in IMP_KERNELS + IMP_KERNELS_2 + IMP_KERNELS_3:
         parts.append(translate(spec))
     parts.append("end AgpTpf.Gen.Imp\n")
     txt = "\n".join(parts)
